@@ -576,6 +576,20 @@ proof fn theorem_written_roundtrip(d: Seq<(Seq<char>, Seq<(Seq<char>, Val)>)>, n
     lemma_written_doc(d, nl);
     theorem_link_format_roundtrip(d, nl);
 }
+// ---- attr(key, value): quoted exactly when the code's predicate attr_quotes holds for some character (generated from the
+// closure in the code); written bare, the value must be plain - that is where the quoting decision matters for C16
+pub open spec fn attr_val(v: Seq<char>) -> Val { if attr_quoted_for(v) { Val::Quoted(v) } else { Val::Plain(v) } }
+proof fn lemma_attr_val_ok(v: Seq<char>)
+    ensures val_ok(attr_val(v)), val_orig(attr_val(v)) == v
+{
+    broadcast use axiom_alnum_not_ws;
+    if !attr_quoted_for(v) {
+        assert forall|i: int| 0 <= i < v.len() implies v[i] != ';' && v[i] != ',' && v[i] != '"' && !is_uws(v[i]) by {
+            assert(!attr_quotes(v[i]));
+        }
+        if v.len() > 0 { assert(!is_uws(v[0]) && !is_uws(v.last())); }
+    }
+}
 // ---- the document text is made of the writer's fault-free texts (unit lfw)
 proof fn lemma_writer_pieces(first: bool, nl: bool, link: &str, key: &str, value: &str, n: u32)
     ensures
@@ -583,6 +597,7 @@ proof fn lemma_writer_pieces(first: bool, nl: bool, link: &str, key: &str, value
         out_quoted(key, value) == seq![';'] + body(key@, Val::Quoted(value@)),
         out_plain(key, value) == seq![';'] + body(key@, Val::Plain(value@)),
         out_u32(key, n) == seq![';'] + body(key@, Val::Num(n)),
+        (if attr_quoted_for(value@) { out_quoted(key, value) } else { out_plain(key, value) }) == seq![';'] + body(key@, attr_val(value@)),
 {
     assert(out_link(first, nl, link) =~= w_link(first, nl, link@));
     assert(out_quoted(key, value) =~= seq![';'] + body(key@, Val::Quoted(value@)));
@@ -629,7 +644,7 @@ proof fn lemma_w_nl_ws() ensures forall|i: int| 0 <= i < w_nl_text().len() ==> i
 def build(repo):
     u = Unit(NAME, repo)
     u.raw('use vstd::std_specs::iter::IteratorSpec;\n', 'units/lrt.py')
-    u.prelude('strmodel.rs', 'lfscan.rs', 'unqspec.rs')
+    u.prelude('charclass.rs', 'strmodel.rs', 'lfscan.rs', 'unqspec.rs')
     u.raw(writer_texts(repo), 'units/lfw.py (generated from /repo/src/link_format.rs)')
     u.raw(SPEC, 'units/lrt.py')
     u.assemble()
